@@ -26,6 +26,18 @@ ENGINES = [
         "kind_free_text": "hand-assembled Foundry artifacts are run through halmos' run_contract; TLC executes deploy/setUp/test message sequences on the reference EVM and classifies the outcomes",
     },
     {
+        "name": "query-model",
+        "path": "spec/SolverQuery.tla spec/MC_SolverQuery*.cfg harness/query_obs.py checks/c11.py",
+        "serves_properties": ["C11"],
+        "kind_free_text": "TLC checks the serialisation model and validates observations of the dumped SMT-LIB files; the files are re-parsed and evaluated pointwise against the in-memory constraints",
+    },
+    {
+        "name": "E3-schedule-engine",
+        "path": "spec/Executor.tla spec/ExecSched.tla spec/ExecMut.tla spec/Trace_Executor.tla spec/MC_Exec*.cfg harness/sched.py harness/exec_*.py checks/c17.py",
+        "serves_properties": ["C17"],
+        "kind_free_text": "exhaustive TLC exploration of the thread/process lifecycle model; deterministic replay of TLC schedules into the real executor classes; trace validation of real-subprocess runs",
+    },
+    {
         "name": "testrun-model",
         "path": "spec/TestRun.tla spec/MC_TestRun_*.cfg checks/c20.py harness/artifacts.py",
         "serves_properties": ["C20"],
@@ -120,6 +132,13 @@ CHECKS: dict[str, dict] = {
         "note": "The model covers the loop-shaped use of JUMPI (the shape the unrolling bound is about); replay uses a wrapper around Exec.check for fault injection, all other queries reach z3.",
         "design_ref": "5 C10, A.2",
     },
+    "C11": {
+        "engine": "query-model",
+        "technique": "SolverQuery.tla (design model + validation of observations recorded from to_smt2/dump/refine) checked by TLC; dumped SMT-LIB text re-parsed and evaluated pointwise against the in-memory path constraints",
+        "text": "SolverQuery.tla models what is serialised for a path (all constraints whatever the in-memory solver holds, plain or guarded-and-named, refinement turning exactly the refinable abstraction declarations into definitions) with invariants QueryHasAllConditions / NamedEncodingEquisat checked by TLC, and validates one observation record per dumped file. For every non-stuck path of programs branching on each arithmetic abstraction, of the E1 families and of run_contract tests (regular tests after setUp, invariant tests extending a sliced state) the real to_smt2/dump/refine are invoked with and without --cache-solver; each of the 4 files is taken apart into an observation (TLC) and re-parsed with z3 and evaluated at the path's inputs: it must be true exactly where the conjunction of Path.conditions is true; refined files are evaluated without any interpretation for the refinable abstractions, so a missing or wrong definition shows up.",
+        "note": "Pointwise agreement on the inputs of the path's table, not a proof of logical equivalence. f_evm_exp is never refined by halmos; queries containing it are compared unrefined only.",
+        "design_ref": "5 C11",
+    },
     "C12": {
         "engine": "abi-model",
         "technique": "Abi.tla (encoder, strict decoder, layout; 14 invariants model-checked) enumerates type trees and candidate lists; halmos' mk_calldata output is instantiated and decoded/unified by TLC; candidate exploration through SEVM",
@@ -147,6 +166,13 @@ CHECKS: dict[str, dict] = {
         "text": "Frontier.tla specifies bounded invariant testing (any sequence of <= d calls target x function x arguments x sender x value from the post-setUp world, reverted calls dropped, the invariant and target assertions checked after each call; states merged only when their worlds are equal, by a VIEW). For generated two-word state machines whose functions make the finite domains complete (arguments masked to 0..3, senders compared with one owner, values with 1) TLC decides breakability within depth d and prints a shortest breaking sequence. halmos' run_contract with --invariant-depth d must FAIL iff an invariant break exists; every valid counterexample (call sequence and model captured at the solver callback) is concretised and replayed on Evm.tla and must break the invariant.",
         "note": "Timestamps are not read by the generated targets; target/exclude filter combinations are exercised by the filter scenarios of the thorough tier. Recorded finding: an assertion failing inside a target is printed but not part of the verdict.",
         "design_ref": "5 C15, A.4",
+    },
+    "C17": {
+        "engine": "E3-schedule-engine",
+        "technique": "Executor.tla (one action per synchronisation point of processes.py) model-checked exhaustively incl. liveness under fairness; TLC schedules replayed into the real PopenExecutor under a deterministic scheduler; real-subprocess traces validated by Trace_Executor.tla",
+        "text": "Executor.tla has one action per synchronisation point of submit / worker / cancel / shutdown and is checked exhaustively by TLC for 1-2 jobs (quick) and 3 jobs (thorough): ResultExactlyOnce, NoAcceptAfterShutdown, QuiescentAfterReturnedWait, SnapshotCoversRegistered, TimeoutIsUnknown as invariants, WaitReturns etc. as liveness under fairness; mutated models (and the pre-fix check-outside-the-lock order) are refuted as negative controls. Schedules generated by TLC (all <= 2-preemption schedules of one job, thousands of random 2-3 job schedules) are replayed into the REAL PopenExecutor/PopenFuture with threading, Popen, psutil and the cancel pool substituted by controlled equivalents in the halmos.processes namespace, comparing the projected state and the enabled set after every step; randomized runs with real subprocesses are recorded and validated against Trace_Executor.tla; solve_low_level is driven with stub solvers that answer late (timeout must give `unknown`).",
+        "note": "Two remaining genuine behaviours are recorded findings (cancel-before-popen, join-raises-job-exception). One shutdown() call per executor is assumed. The replay is tied to the current synchronisation points of processes.py.",
+        "design_ref": "5 C17, A.1",
     },
     "C18": {
         "engine": "config-model",
